@@ -182,7 +182,10 @@ def rand_order(rng, i, ts, zero_ok=True):
     return order(i, kind, vis, ts=ts, side=side, par=tif)
 
 
-def seq_history(rng, nops, nids=6, monotone_ts=True, zero_ok=True, reads=True, vary_px=False):
+def seq_history(rng, nops, nids=6, monotone_ts=True, zero_ok=True, reads=True, vary_px=False, price=None, self_taker=False):
+    """price: the level's price (default PRICE); self_taker: some matches carry the id of a possibly resting order as taker"""
+    P = PRICE if price is None else price
+    lo = max(P - 1, 0)
     calls = []
     ts = 0
     for _ in range(nops):
@@ -191,30 +194,34 @@ def seq_history(rng, nops, nids=6, monotone_ts=True, zero_ok=True, reads=True, v
         if x < 30:
             ts = ts + 1 if monotone_ts else rng.range(0, 4)      # 0: "no arrival time" for the statistics
             o = rand_order(rng, i, ts, zero_ok)
+            o["px"] = P
             if vary_px:
                 # the order's own price field is not checked by add_order: it may differ from the level's
-                o["px"] = rng.choice([PRICE - 2, PRICE - 1, PRICE, PRICE + 1, PRICE + 2])
+                o["px"] = rng.choice([max(P - 2, 0), lo, P, P + 1, P + 2])
             calls.append(Add(o))
         elif x < 58:
-            calls.append(Match(rng.choice([0, 1, 1, 2, 3, 4, 6, 9, 15, 300]) if zero_ok else rng.choice([1, 1, 2, 3, 4, 6, 9, 15, 300])))
+            m = Match(rng.choice([0, 1, 1, 2, 3, 4, 6, 9, 15, 300]) if zero_ok else rng.choice([1, 1, 2, 3, 4, 6, 9, 15, 300]))
+            if self_taker and rng.chance(1, 3):
+                m["taker"] = rng.range(1, nids)       # the taker's id may be the id of an order resting here
+            calls.append(m)
         elif x < 66:
             calls.append(Cancel(i))
         elif x < 78:
             calls.append(Amend(i, rng.choice([0, 1, 2, 3, 5, 9, 14]) if zero_ok else rng.choice([1, 2, 3, 5, 9, 14])))
         elif x < 82:
-            calls.append(Move(i, rng.choice([PRICE, PRICE + 1, PRICE - 1])))
+            calls.append(Move(i, rng.choice([P, P + 1, lo])))
         elif x < 86:
-            calls.append(Upq(i, rng.choice([PRICE, PRICE + 1]), rng.choice([0, 1, 2, 4, 7]) if zero_ok else rng.choice([1, 2, 4, 7])))
+            calls.append(Upq(i, rng.choice([P, P + 1]), rng.choice([0, 1, 2, 4, 7]) if zero_ok else rng.choice([1, 2, 4, 7])))
         elif x < 90:
-            calls.append(Replace(i, rng.choice([PRICE, PRICE + 1, PRICE - 1]), rng.choice([0, 1, 2, 4, 7]) if zero_ok else rng.choice([1, 2, 4, 7]),
+            calls.append(Replace(i, rng.choice([P, P + 1, lo]), rng.choice([0, 1, 2, 4, 7]) if zero_ok else rng.choice([1, 2, 4, 7]),
                                  side=rng.choice(["Buy", "Sell"])))
         elif reads:
             calls.append({"op": rng.choice(["read", "list", "snapshot", "display", "serialize", "stats", "snapjson"])})
     return calls
 
 
-def seq_scenario(calls, budget=3000):
-    return {"price": PRICE, "init": [], "threads": [calls], "sched": {"mode": "fixed", "seq": []}, "drain": False, "log": "macro", "budget": budget}
+def seq_scenario(calls, budget=3000, price=None):
+    return {"price": PRICE if price is None else price, "init": [], "threads": [calls], "sched": {"mode": "fixed", "seq": []}, "drain": False, "log": "macro", "budget": budget}
 
 
 def wide_conc_scenarios(rng, n=5):
